@@ -633,7 +633,7 @@ package hclwrite
 //@ ghost listed = len(ret)
 //@ ensures members: forall i int :: { ret[i] } 0 <= i && i < len(ret) ==> has(ns, ret[i])
 //@ ensures listed == len(ret)
-//@ loop 1 invariant len(ret) >= 0 && (forall i int :: { ret[i] } 0 <= i && i < len(ret) ==> has(ns, ret[i]))
+//@ loop 1 invariant len(ret) >= 0 && fresh(ret) && (forall i int :: { ret[i] } 0 <= i && i < len(ret) ==> has(ns, ret[i]))
 
 // The escape decoder itself is not under contract here: litOK is defined as "it reports no error".
 // verif:extfunc github.com/hashicorp/hcl/v2/hclsyntax.ParseStringLiteralToken
